@@ -80,7 +80,7 @@ def chain(job: dict, policy: dict | None, max_deliveries: int = 14) -> tuple[lis
                 kind = "failure"
                 result = ("err", o["exc"], _text_of(o["exc"], o.get("text", "")))
         elif k == "timeout":
-            kind, dur, result = "failure", timeout, ("err-timeout",)
+            kind, dur, result = "failure", timeout + float(o.get("cleanup") or 0.0), ("err-timeout",)
         elif k == "eager":
             # set_result / set_exception need result storing; otherwise they raise ValueError inside the actor
             prog = o.get("program", [])
